@@ -141,7 +141,8 @@ func verifC03TopID(s string, i int32) int {
 }
 
 // key identity kid = m*100 + tag -> a real key (without time).  Four consecutive ids share metric
-// and Tags[1] and differ only in one string tag / one high int tag, so a key
+// and Tags[1] and differ only in the presence or the value of one late string tag / one high int
+// tag, so a key
 // comparison that ignores part of the key merges rows that must stay apart.
 func verifC03Key(kid int) data_model.Key {
 	base := kid / 4
@@ -153,9 +154,10 @@ func verifC03Key(kid int) data_model.Key {
 	}
 	switch kid % 4 {
 	case 1:
-		k.STags[2] = "s"
+		k.STags[45] = "y"
 	case 2:
 		k.Tags[46] = 5
+		k.STags[2] = "s"
 	case 3:
 		k.STags[45] = "z"
 	}
@@ -781,6 +783,7 @@ func verifC03Random(rnd *rand.Rand) verifC03Run {
 	}
 	nKeys, nAgents, nTops := 1+rnd.Intn(8), 1+rnd.Intn(4), 1+rnd.Intn(5)
 	n := 1 + rnd.Intn(24)
+	digestWeight := map[[3]int]int{}
 	for j := 0; j < n; j++ {
 		it := verifC03Item{A: "Merge", Agent: 1 + rnd.Intn(nAgents), B: 1 + rnd.Intn(len(run.bts)), M: 1 + rnd.Intn(2), Tag: rnd.Intn(nKeys)}
 		bt := int(run.bts[it.B-1])
@@ -802,7 +805,16 @@ func verifC03Random(rnd *rand.Rand) verifC03Run {
 			}
 			if !used[top] {
 				used[top] = true
-				it.Parts = append(it.Parts, verifC03RandomPart(rnd, top))
+				p := verifC03RandomPart(rnd, top)
+				// keep the digest of one row below ~100 units of weight: beyond that the real t-digest
+				// (compression 80) starts merging neighbouring centroids and the bag of centroids is
+				// no longer the union the specification demands (C02 makes the same assumption)
+				if wk := [3]int{it.M, it.Tag, top}; len(p.Cent) != 0 && digestWeight[wk]+p.Cnt > 60 {
+					p.Cent = nil
+				} else if len(p.Cent) != 0 {
+					digestWeight[wk] += p.Cnt
+				}
+				it.Parts = append(it.Parts, p)
 			}
 		}
 		run.items = append(run.items, it)
@@ -881,6 +893,10 @@ func TestVerifC03(t *testing.T) {
 	var events []map[string]any
 	for ri := range runs {
 		runs[ri].execute(res, ri, &events)
+		if res.Counters["mismatches_total"] >= 20 { // enough witnesses; a broken decoder can make every run slow
+			res.Note("stopped after run %d of %d: 20 mismatches recorded", ri, len(runs))
+			break
+		}
 	}
 	res.Count("tlc_behaviours", nTLC)
 	res.Count("random_runs", len(runs)-nTLC)
